@@ -178,4 +178,21 @@ theorem VC.intersect_at {LoI HiI : List Version} (hnp : NoPoint LoI HiI) (p : Ve
     rw [h3]
     simp [VC.allowsPlain, VC.flatten, anyAllows]
 
+/-! ### the half-open fragment with unstable lower ends: every probe is fine -/
+
+/-- a half-open range member without local label whose lower end (if any) is unstable — e.g. `[X.dev0, Y.dev0)`,
+what `==V.*` builds -/
+def RC.HalfOpenDev (x : RC) : Prop :=
+  ∃ r, x = .rng r ∧ RngMember (.rng r) ∧ r.HalfOpen ∧ (∀ e ∈ r.bounds, e.isLocal = false) ∧
+    ∀ m, r.min = some m → m.isUnstable = true
+
+theorem RC.HalfOpenDev.psem {x : RC} (h : x.HalfOpenDev) (LoI : List Version) (hl : ∀ e ∈ x.bounds, e ∈ LoI)
+    (p : Version) : RngMember x ∧ x.PSem LoI [] p := by
+  obtain ⟨r, rfl, hm, ho, hnl, hu⟩ := h
+  refine ⟨hm, r, rfl, hm.1, hm.2.1, hnl, ?_, ?_, ⟨?_, ?_⟩⟩
+  · intro m hmm; exact Or.inr ⟨ho.1 m hmm, hu m hmm⟩
+  · intro M hM; exact Or.inl (ho.2 M hM)
+  · intro m hmm _; exact hl m (VRange.mem_bounds_min hmm)
+  · intro M hM hi; rw [ho.2 M hM] at hi; cases hi
+
 end Poetry
